@@ -627,6 +627,41 @@ func checkC15(w *World, r *Report) {
 		}
 	})
 
+	r.Rule("R15.9", "a module's own prefix always means the module itself: GetModuleByPrefix tests the prefix against the root's own prefix before it consults the import statements (which, after the imports of included submodules were merged in, may bind the same prefix to another module)", 1)
+	r.guard("R15.9", func() {
+		f := w.SSAFunc(w.Method("parse", "node", "GetModuleByPrefix"))
+		if f == nil {
+			panic(undecided{"parse.node.GetModuleByPrefix"})
+		}
+		var ownTest, lookup *ssa.BasicBlock
+		for _, b := range f.Blocks {
+			for _, in := range b.Instrs {
+				switch x := in.(type) {
+				case *ssa.Call:
+					if x.Call.StaticCallee() != nil && x.Call.StaticCallee().Name() == "getPfxName" {
+						lookup = b
+					}
+				case *ssa.BinOp:
+					if x.Op == token.EQL || x.Op == token.NEQ {
+						for _, side := range []ssa.Value{x.X, x.Y} {
+							if c, ok := side.(*ssa.Call); ok && c.Call.IsInvoke() && c.Call.Method.Name() == "Prefix" {
+								for _, ref := range *x.Referrers() {
+									if _, isIf := ref.(*ssa.If); isIf {
+										ownTest = b
+									}
+								}
+							}
+						}
+					}
+				}
+			}
+		}
+		if ownTest == nil || lookup == nil {
+			panic(undecided{"GetModuleByPrefix: own-prefix test / import lookup"})
+		}
+		r.Check(ownTest != lookup && ownTest.Dominates(lookup), "R15.9", "GetModuleByPrefix tests the own prefix first", f.Pos(), "root.Prefix() == pfx decided before getPfxName(root, pfx)", "the import statements are consulted before the module's own prefix: when an included submodule imports another module under the prefix the module uses for itself, every m:name written in the module resolves to that other module")
+	})
+
 	r.Rule("R15.3", "prefix lookup goes through the defining module: GetModuleByPrefix (and what it calls) reads the node's defining tree, never the using tree; only the empty prefix takes the context-dependent namespace; an unknown prefix is an error unless unknowns are skipped", 3)
 	r.guard("R15.3", func() {
 		pp := w.Pkg("parse")
